@@ -91,3 +91,22 @@ def line_comment_ok(lit: str, prefix: str) -> bool:
             at_line_start = True
         i = i + 1
     return True
+
+
+def no_line_continuation(lit: str) -> bool:
+    """No physical line of ``lit`` -- the last one included: code follows the comment -- ends in a backslash,
+    optionally followed by blanks or tabs: C and C++ splice such a line with the next one (translation phase 2; GCC
+    also with white space in between), which would pull the following line of code into a ``//`` comment."""
+    n = len(lit)
+    i = 0
+    last = 0  # the last character of the current line that is neither a blank nor a tab (0: none yet)
+    while i < n:
+        c = ord(lit[i])
+        if is_line_terminator(c):
+            if last == 92:
+                return False
+            last = 0
+        elif c != 32 and c != 9:
+            last = c
+        i = i + 1
+    return last != 92
